@@ -25,6 +25,13 @@ def guard_values(ctx, fo: Folder, f: Func, node: ast.AST, var: str):
     child = node
     for p in parents(node):
         if isinstance(p, (ast.FunctionDef, ast.AsyncFunctionDef)):
+            for prev in p.body:
+                if prev is child:
+                    break
+                if isinstance(prev, ast.If) and not prev.orelse and prev.body and isinstance(prev.body[-1], (ast.Return, ast.Raise)):
+                    v = _test_values(ctx, fo, f, prev.test, var)
+                    if v is not None:
+                        neg |= set(v)
             break
         if isinstance(p, ast.If):
             if any(child is s for s in p.body):
@@ -36,6 +43,17 @@ def guard_values(ctx, fo: Folder, f: Func, node: ast.AST, var: str):
                 v = _test_values(ctx, fo, f, p.test, var)
                 if v is not None:
                     neg |= set(v)
+        # guard clauses before `child` in the same block: `if var == 'x': ...; return` means var != 'x' from here on
+        for field in ("body", "orelse", "finalbody"):
+            blk = getattr(p, field, None)
+            if isinstance(blk, list) and any(child is s for s in blk):
+                for prev in blk:
+                    if prev is child:
+                        break
+                    if isinstance(prev, ast.If) and not prev.orelse and prev.body and isinstance(prev.body[-1], (ast.Return, ast.Raise, ast.Continue, ast.Break)):
+                        v = _test_values(ctx, fo, f, prev.test, var)
+                        if v is not None:
+                            neg |= set(v)
         child = p
     cfg = ctx.cfg(f)
     nn = cfg.node_of(node)
